@@ -87,6 +87,11 @@ def gen(shard, tier):
             for val in CORPUS_MUST_RAISE:
                 for mult in (1, 2):
                     yield {'kind': 'deferred', 'slot': slot, 'val': val, 'mult': mult}, 1, True
+                # next to a resolvable modification in the same slot (before and after it)
+                yield {'kind': 'deferred', 'slot': slot, 'val': val, 'mult': 1, 'with': 'after'}, 2, True
+                yield {'kind': 'deferred', 'slot': slot, 'val': val, 'mult': 1, 'with': 'before'}, 2, True
+        for val in ('Formula:C]H', 'Formula:C2]', 'Glycan:Hex]2', 'Formula:]'):   # only writable inside {...}
+            yield {'kind': 'deferred', 'slot': 'labile', 'val': val, 'mult': 1}, 1, True
 
 
 def _one(p, ctx, s):
@@ -212,9 +217,13 @@ def check(case, ctx):
         slot, val, mult = case['slot'], case['val'], case['mult']
         seq = 'PEK'
         mods = [[val, mult]]
+        if case.get('with') == 'after':
+            mods = [['Acetyl', 1], [val, mult]]
+        elif case.get('with') == 'before':
+            mods = [[val, mult], ['Acetyl', 1]]
         slots = {slot: mods}
         if slot == 'static':
-            slots = {'static': [{'mods': [[val, 1]], 'targets': ['K']}]}
+            slots = {'static': [{'mods': [[m[0], 1] for m in mods], 'targets': ['K']}]}
         elif slot == 'iv':
             slots = {'iv': [[0, 2, False, mods]]}
         P = c01.build(seq, slots)
